@@ -212,10 +212,71 @@ def r4_start_aware_rejection(ctx, cfg='A'):
         ctx.check(ok, 'sim_time-is-clock', 'Runtime::sim_time reads the simulation clock', g.where())
 
 
+INT_BITS = {'u8': 8, 'u16': 16, 'u32': 32, 'u64': 64, 'u128': 128, 'usize': 64, 'i8': 8, 'i16': 16, 'i32': 32, 'i64': 64, 'i128': 128, 'isize': 64}
+
+
+def r5_clock_roundtrip(ctx, cfg='A'):
+    """the clock's writer and reader agree: what set_now stores is what now() reads back, without a lossy conversion"""
+    ctx.set_rule('C02.R5', cfg)
+    P = ctx.progs[cfg]
+    fs, fn = P.fns.get(SET), P.fns.get(NOW)
+    if not (fs and fn):
+        ctx.violation('anchor:clock-accessors', 'unresolved-anchor: SimTime::set_now / SimTime::now'); return
+    ctx.touch(fs, fn)
+    stores = [s for s in fs.calls() if s.name.split('::')[-1] == 'store' and any(x == ('static', CLOCK) for x in walk(fs.expr_operand(s.args[0], s.b, 'T')))]
+    loads = [s for s in fn.calls() if s.name.split('::')[-1] == 'load' and any(x == ('static', CLOCK) for x in walk(fn.expr_operand(s.args[0], s.b, 'T')))]
+    if not (ctx.floor('clock stores in set_now', len(stores), 1) and ctx.floor('clock loads in now', len(loads), 1)):
+        return
+    # no narrowing integer cast on a stored value
+    for s in stores:
+        v = fs.expr_operand(s.args[1], s.b, 'T')
+        lossy = []
+        for x in walk(v):
+            if x[0] == 'cast' and x[1] == 'IntToInt':
+                fr, to = INT_BITS.get(x[4]), INT_BITS.get(x[3])
+                if fr and to and to < fr:
+                    lossy.append('%s -> %s' % (x[4], x[3]))
+        ctx.check(not lossy, 'clock-store-lossless', 'the value stored into the clock is not narrowed by an integer cast (a wrapped clock would differ from the event timestamp and run backwards)', s.where(), lossy or show(v)[:120])
+    # cell roles agree: the component stored in cell i is the component now() feeds back into the matching constructor argument
+    def cell(tree):
+        for x in walk(tree):
+            if x[0] == 'field' and x[1] == ('static', CLOCK) or (x[0] == 'field' and any(y == ('static', CLOCK) for y in walk(x[1])) and x[2].isdigit()):
+                return x[2]
+        return 'whole'
+    wrote = {}
+    for s in stores:
+        v = peel(fs.expr_operand(s.args[1], s.b, 'T'))
+        comp = v[1].split('::')[-1] if v[0] == 'call' else show(v)[:40]
+        wrote[cell(fs.expr_operand(s.args[0], s.b, 'T'))] = comp
+    ok = False
+    detail = {'stored': wrote}
+    for b, t in ret_trees(fn):
+        ctor = [x for x in walk(t) if x[0] == 'call' and x[1].startswith('std::time::Duration::')]
+        if ctor:
+            c = ctor[0]
+            args = [cell(a) if any(y[0] == 'call' and y[1].split('::')[-1] == 'load' for y in walk(a)) else None for a in c[2]]
+            detail['reader'] = {'ctor': c[1].split('::')[-1], 'cells': args}
+            name = c[1].split('::')[-1]
+            if name == 'new' and len(args) == 2 and None not in args:
+                ok = wrote.get(args[0]) == 'as_secs' and wrote.get(args[1]) == 'subsec_nanos'
+            elif name in ('from_nanos', 'from_nanos_u128') and len(args) == 1 and args[0] is not None:
+                ok = wrote.get(args[0]) == 'as_nanos' and name == 'from_nanos_u128'
+            elif name == 'from_secs' and len(args) == 1:
+                ok = False
+    ctx.check(ok, 'clock-roundtrip', "SimTime::now() rebuilds exactly the duration SimTime::set_now() stored (seconds and sub-second nanoseconds in matching cells)", fn.where(), detail)
+
+
 def run(ctx):
     for cfg in [c for c in ('A', 'B') if c in ctx.progs]:
         r1_single_writer(ctx, cfg)
         r2_dispatch_order(ctx, cfg)
         r3_start_time(ctx, cfg)
         r4_start_aware_rejection(ctx, cfg)
+        r5_clock_roundtrip(ctx, cfg)
     ctx.cfg = 'A'
+
+
+def thorough(ctx):
+    from .engine.witness import check_witnesses
+    res = check_witnesses(ctx, 'C02.R1', ('W2',), ('W2SetNow','W2SetNowTwin'))
+    return {'witnesses': res}
